@@ -18,7 +18,9 @@ SPEC = dict(
          "capabilities()/addProperCapability()/handleIq() model); then per client a history of 2-5 reconfigurations (setClientName/Type/Category/"
          "CapabilitiesNode/InfoForm, addExtension, removeExtension) each followed by a re-publication (fresh presence or one derived from "
          "clientPresence(); via setClientPresence or via connectToServer + session start on a loopback socket) and the same comparison after "
-         "EVERY emitted presence ('config'/'publish'/'query' lines tie the stateful clientStep model). A sequence (one base set with its variants) is non-trivial when it "
+         "EVERY emitted presence, for node#ver, the plain node and no node ('config'/'publish'/'query' lines tie the stateful clientStep model); "
+         "capabilities nodes include adversarial URIs ('#' inside / repeated / at the end, XML-special and non-ASCII characters, nodes that are "
+         "prefixes or extensions of each other, the empty node = nothing advertised). A sequence (one base set with its variants) is non-trivial when it "
          "yields >= 2 distinct hashes.",
     trusted_base=[
         "Lean 4.33.0 kernel; axioms per theorem listed under coverage.theorems (subset of propext, Classical.choice, Quot.sound)",
